@@ -168,7 +168,78 @@ fn behavioural(ctx: &mut Ctx, rng: &mut Rng, _i: u64) {
     run::end_case();
 }
 
+/// Several threads spawn at the same time (each with its own mask): the clean signal state of a child must not depend
+/// on what another thread is doing to the process-wide SIGPIPE disposition at that moment, and the parent's own
+/// disposition and masks must be what they were afterwards.
+fn concurrent(ctx: &mut Ctx, rng: &mut Rng, i: u64) {
+    run::begin_case();
+    let dir = ctx.scratch("c18c");
+    let nthreads = rng.range(3, 8) as usize;
+    let rounds = rng.range(4, 10) as usize;
+    let sigpipe_mode = i % 3;
+    let mut exes: Vec<Vec<PathBuf>> = vec![];
+    for t in 0..nthreads {
+        exes.push((0..rounds).map(|r| spawn::report_exe(ctx, &dir, &format!("t{}r{}", t, r), "x")).collect());
+    }
+    let masks: Vec<Vec<i32>> = (0..nthreads).map(|_| (1..=64).filter(|&s| blockable(s) && rng.chance(300)).collect()).collect();
+    let exes2 = exes.clone();
+    let masks2 = masks.clone();
+    let before = unsafe {
+        let oldp = set_sigpipe(sigpipe_mode);
+        oldp
+    };
+    let m = run::monitored(move || {
+        let hs: Vec<_> = (0..nthreads)
+            .map(|t| {
+                let mine = exes2[t].clone();
+                let mask = masks2[t].clone();
+                std::thread::spawn(move || {
+                    ilog::set_subject(true);
+                    unsafe {
+                        let old = set_mask(&mask);
+                        for exe in &mine {
+                            if let Ok(mut p) = Popen::create(&[exe.clone().into_os_string()], PopenConfig::default()) {
+                                let _ = p.wait();
+                            }
+                        }
+                        // the thread's own mask must be what it set
+                        let mut cur: libc::sigset_t = std::mem::zeroed();
+                        libc::pthread_sigmask(libc::SIG_SETMASK, std::ptr::null(), &mut cur);
+                        let kept = mask.iter().all(|&s| libc::sigismember(&cur, s) == 1);
+                        restore_mask(&old);
+                        ilog::set_subject(false);
+                        kept
+                    }
+                })
+            })
+            .collect();
+        hs.into_iter().map(|h| h.join().unwrap_or(false)).collect::<Vec<bool>>()
+    });
+    // the process-wide disposition must be what the test set, not what a spawn left behind
+    let now = unsafe { libc::signal(libc::SIGPIPE, before) };
+    let want = match sigpipe_mode { 0 => libc::SIG_IGN, 1 => libc::SIG_DFL, _ => noop_handler as usize };
+    ctx.count("concurrent_spawn_storms", 1);
+    if now != want {
+        ctx.violation("C18/parent-sigpipe-changed", "after concurrent spawns the parent's own SIGPIPE disposition is not what it was", J::obj().set("mode", J::i(sigpipe_mode as i64)));
+    }
+    if let Some(kept) = &m.result {
+        if kept.iter().any(|k| !k) {
+            ctx.violation("C18/parent-mask-changed", "a spawning thread's own signal mask was altered by spawning", J::Null);
+        }
+    }
+    for t in 0..nthreads {
+        for exe in &exes[t] {
+            check_report(ctx, &format!("thread {} of {}", t, nthreads), "concurrent", &masks[t], sigpipe_mode, exe);
+            ctx.count("children_of_concurrent_spawns_inspected", 1);
+        }
+    }
+    ctx.distinct(&format!("conc|{}|{}|{}|{}", nthreads, rounds, sigpipe_mode, i));
+    run::end_case();
+}
+
 pub fn run(ctx: &mut Ctx) {
+    let nc = ctx.n(60, 600);
+    ctx.family("concurrent", nc, concurrent);
     // each single blockable signal x each parent SIGPIPE disposition
     ctx.family("single-signal", 64 * 3, |ctx, _rng, i| {
         // the disposition changes from case to case within a worker (a library that remembers the parent's
